@@ -220,6 +220,10 @@ def entries_independent(ctx, rule):
     acc = frozenset({(lenG, -1), (m.threshold, 1)}) if lenG is not None else None
     for bp in m.body:
         if bp.kind == "raise":
+            # (a body path of a loop that sits in an inlined helper is listed as the helper sees it;
+            # whether it exists for this caller is decided where the verifier's own paths are built)
+            if not any(esc.value.exc == bp.payload.exc and esc.value.chain and bp.payload.chain and esc.value.chain[-1] == bp.payload.chain[-1] for esc in m.loop_escapes):
+                continue
             unjust += 1
             why.append("an exception leaves the loop (%s)" % bp.payload.exc)
             continue
